@@ -91,6 +91,7 @@ CODED_FILES = [BYTES + b.hex() for b in (
     b"#\rcoding=1\r", "#\rx='coding:latin-1 \u00e9'\r".encode(), b"\r# coding: latin-1\rx = '\xe9'\r", b"#!x\r\n# coding: latin-1\r\nx = '\xe9' 1\r\n", b"# c\r# d\r# coding: latin-1\rx = 1\r",
     # a declaration counts on the first two physical lines only: blank lines in front are lines too
     b"#!/usr/bin/env xonsh\n\n# -*- coding: latin-1 -*-\nname = '\xc3\xa9'\n", b"# a\n\n# Hardcoding: defaults\nx = 1\n", b"\n\n# coding: latin-1\nx = '\xc3\xa9' 1\n", b"\r\n\r\n# coding: cp1252\r\ny = '\xc3\xbc'\r\n", b"#\r\r# coding: latin-1\rz = '\xc3\xa9'\r",
+    b"#!x\r\n# coding: nonexistent\r\nx = 1\r\n", b"#!x\r# coding: nonexistent\rx = 1\r", b"x = 1\r\ny = 2\r\nz = '\xff'\r\n", b"# coding: ascii\r\n\r\nw = '\xc3\xa9'\r\n",
     b"# coding: no-such-codec\nx = 1\n", b"#!x\n# -*- coding: ut\xc3\xa9f-8 -*-\nx = 1\n", b"\xef\xbb\xbf# coding: latin-1\nx = 1\n", b"x = '\xe9'\n")]
 
 
@@ -166,6 +167,10 @@ def run_shard(shard):
                 acc.inconc("reference decoding disagrees with CPython's own", case)
             elif fs[0] == "tree":
                 acc.violation("undecodable-file-parsed", case, {"file": _short(fs), "reference": c["undecodable"]})
+            elif c.get("located") is False:
+                acc.violation("refusal-of-undecodable-file-does-not-quote-its-line", case, {"file": _short(fs)})
+            elif c.get("located"):
+                acc.count("located_refusals_of_contents_that_are_no_text")
         elif fs != ss:
             # (finding F12c - no newline translation on the string side - is repaired: any difference is reported as such)
             acc.violation("file-and-string-differ", case, {"file": _short(fs), "string": _short(ss), "string_translated_agrees": bool("\r" in t and c["translated"] is not None and fs == c["translated"])})
